@@ -39,6 +39,9 @@ FILE_POOL = [
     "sub/deep/i.txt",
     "signac_statepoint.json.bak",
     "signac_job_document.json.old",
+    "._f.txt",
+    ".hidden",
+    "sub/._h",
 ]
 PROJECT_ENTRIES = ("Project.sync", "sync_projects")
 JOB_ENTRIES = ("Job.sync", "sync_jobs")
